@@ -119,9 +119,112 @@ pub fn add_filler(p: &mut Pos, phase: i32, reserved: u8) {
     }
 }
 
+/// Legal position with extreme material for one side (5-9 queens + rooks/minors) against a nearly
+/// bare king: the largest evaluations the engine can produce, with and without a mate available.
+fn extreme_material_position(rng: &mut Rng) -> Option<Pos> {
+    let mut p = Pos::empty();
+    let heavy = if rng.chance(1, 2) { Color::White } else { Color::Black };
+    let weak = heavy.other();
+    let wk = rng.below(64) as u8;
+    p.sq[wk as usize] = Some((weak, Kind::King));
+    let mut place = |p: &mut Pos, pc: (Color, Kind), rng: &mut Rng| {
+        for _ in 0..30 {
+            let s = rng.below(64) as u8;
+            if p.sq[s as usize].is_none() && !(pc.1 == Kind::Pawn && (rank_of(s) == 0 || rank_of(s) == 7)) {
+                p.sq[s as usize] = Some(pc);
+                return;
+            }
+        }
+    };
+    place(&mut p, (heavy, Kind::King), rng);
+    for _ in 0..rng.range(5, 9) {
+        place(&mut p, (heavy, Kind::Queen), rng);
+    }
+    for k in [Kind::Rook, Kind::Rook, Kind::Bishop, Kind::Bishop, Kind::Knight, Kind::Knight] {
+        if rng.chance(2, 3) {
+            place(&mut p, (heavy, k), rng);
+        }
+    }
+    for _ in 0..rng.range(0, 3) {
+        place(&mut p, (weak, Kind::Pawn), rng);
+    }
+    p.stm = if in_check(&p, weak) { weak } else if rng.chance(1, 2) { heavy } else { weak };
+    if is_legal_position(&p) && has_legal_move(&p) {
+        Some(p)
+    } else {
+        None
+    }
+}
+
+/// "A material evaluation can never be mistaken for, or outrank, a forced mate": observed on the
+/// real search at depths 1-2 against the exact reference value (mate scores on the documented
+/// 100000 scale, material from the engine's own evaluation).
+fn check_mate_range(p: &Pos, h: &crate::zobrist::ZobristHasher, acc: &mut Acc, sample: bool) {
+    use crate::mon::search::make_root;
+    use crate::mon::searchlib::*;
+    let hist = History { start: p.clone(), moves: vec![], end: p.clone() };
+    let root = match make_root(hist, h) {
+        Ok(r) => r,
+        Err(_) => return,
+    };
+    let r = run_search(&root.board, &root.table, None, 2);
+    acc.evaluations += 1;
+    let case = json!({"kind": "search", "property": "C14", "position_command": root.hist.command(), "root_fen": p.to_fen(), "depth_limit": 2});
+    if r.panic.is_some() {
+        return; // C07's business
+    }
+    let mut cur = 0u8;
+    let mut last: std::collections::HashMap<u8, (Info, String, Option<Mv>)> = std::collections::HashMap::new();
+    let mut last_send: Option<Mv> = None;
+    for e in &r.report.events {
+        match e {
+            crate::verif::Ev::IterStart(d) => cur = *d,
+            crate::verif::Ev::Send(b, _) => last_send = mv_of(b).ok(),
+            crate::verif::Ev::Line(l) => {
+                if let Ok(i) = parse_info(l, true) {
+                    last.insert(cur, (i, l.clone(), last_send));
+                }
+            }
+        }
+    }
+    for d in 1..=2u8 {
+        let mut rs = RefSearch::new(h, 20_000_000);
+        let (want, _) = match par::catch(|| rs.root(&root.board, d, &root.table)) {
+            Ok(x) => x,
+            Err(_) => continue,
+        };
+        if rs.over_budget {
+            continue;
+        }
+        if let Some((info, line, mv)) = last.get(&d) {
+            let is_mate_value = want.abs() >= MATE - 15;
+            if acc.distinct.insert(hash64(&format!("mr|{}|{}", p.to_fen(), d))) {
+                acc.feature(if is_mate_value { "extreme_material_with_forced_mate" } else { "extreme_material_no_mate" });
+            }
+            acc.max("max_abs_search_value_non_mate", if is_mate_value { 0 } else { want.unsigned_abs() as u64 });
+            if sample && d == 2 {
+                acc.sample(json!({"extreme_material_root": p.to_fen(), "depth": d, "reference_value": want, "reported": format!("{:?}", info.score)}));
+            }
+            match (&info.score, is_mate_value) {
+                (Score::Mate(n), false) => acc.violation(
+                    format!("C14|material-as-mate|{}|d{}", p.to_fen(), d),
+                    format!("{}: depth {} reports 'mate {}' although the exact value is the material score {} (no forced mate): a material evaluation is mistaken for a mate: {:?}", p.to_fen(), d, n, want, line),
+                    case.clone(),
+                ),
+                (Score::Cp(x), true) => acc.violation(
+                    format!("C14|mate-outranked|{}|d{}", p.to_fen(), d),
+                    format!("{}: depth {} ends on {:?} with 'cp {}' although a forced mate (value {}) exists: a material evaluation outranks the mate: {:?}", p.to_fen(), d, mv.map(|m| m.to_string()), x, want, line),
+                    case.clone(),
+                ),
+                _ => {}
+            }
+        }
+    }
+}
+
 pub fn run(tier: Tier, seed: u64) -> i32 {
     let mut run = Run::new("C14", tier, seed, "exploration");
-    run.rule = "evaluation = one placement for which eval is compared with (a) the eval of its colour-mirrored twin, (b) the negated eval with the other side to move, (c) the eval after scrambling every non-placement field, (d) the bound 50 000. Workload: exhaustive single-piece basis (12 pieces x 64 squares x phases 0..26 by symmetric filler x both sides to move), random placements with up to nine queens a side (legal or not), positions from the start library. Non-trivial = at least one piece and a non-zero evaluation; distinct by FEN".into();
+    run.rule = "evaluation = one placement for which eval is compared with (a) the eval of its colour-mirrored twin, (b) the negated eval with the other side to move, (c) the eval after scrambling every non-placement field, (d) the bound 50 000; plus (e) the real search at depths 1-2 on legal extreme-material roots (5-9 queens + rooks/minors against a nearly bare king, with and without a forced mate) compared with the exact reference value: a material value must be reported as cp, a forced mate as mate. Workload: exhaustive single-piece basis (12 pieces x 64 squares x phases 0..26 by symmetric filler x both sides to move), random placements with up to nine queens a side (legal or not), positions from the start library. Non-trivial = at least one piece and a non-zero evaluation; distinct by FEN".into();
     run.assumptions = vec![
         "metamorphic oracle only: the tables themselves are not compared with an external copy of PeSTO".into(),
         "bound 50 000 = half the mate score; largest material constructible with nine queens a side evaluates near 1.4*10^4".into(),
@@ -182,6 +285,31 @@ pub fn run(tier: Tier, seed: u64) -> i32 {
     });
     for a in results {
         run.acc.merge(a, &["max_abs_eval"]);
+    }
+    // mate range: extreme-material roots through the real search
+    let h = crate::zobrist::ZobristHasher::create_zobrist_hasher();
+    let mr_jobs = tier.pick(64usize, 640);
+    let results = par::par_map(mr_jobs, |j| {
+        let mut acc = Acc::new();
+        let mut rng = Rng::stream(seed, 0xC14_0000 + j as u64);
+        let mut n = 0;
+        let mut tries = 0;
+        while n < 6 && tries < 400 {
+            tries += 1;
+            if let Some(p) = extreme_material_position(&mut rng) {
+                check_mate_range(&p, &h, &mut acc, j == 0 && n == 0);
+                n += 1;
+            }
+        }
+        if j == 0 {
+            for fen in ["7k/6pp/8/8/8/8/QQRBBRNN/QQQQKQQQ w - -", "7k/6pp/8/8/8/8/QQRBBRNN/QQQQKQQQ b - -"] {
+                check_mate_range(&Pos::parse_fen(fen).unwrap(), &h, &mut acc, false);
+            }
+        }
+        acc
+    });
+    for a in results {
+        run.acc.merge(a, &["max_abs_eval", "max_abs_search_value_non_mate"]);
     }
     run.set("exhaustive_families", json!(["single piece: 12 pieces x 64 squares x 14 filler levels (phase 0,2,..,26) x 2 sides to move"]));
     run.floor_distinct = 1000;
